@@ -250,8 +250,8 @@ func vBatchDispatch(add bool, nObs int) {
 	}
 	vreach("end")
 }
-func VerifC08_BatchDispatchAdd()      { vBatchDispatch(true, 1) }
-func VerifC08_BatchDispatchRemove()   { vBatchDispatch(false, 1) }
+func VerifC08_BatchDispatchAdd()    { vBatchDispatch(true, 1) }
+func VerifC08_BatchDispatchRemove() { vBatchDispatch(false, 1) }
 
 // ---- C08-H3 (set relations): observers of specific relation components fire iff ALL
 // their observed relations are in the set of relations whose target actually changed in
